@@ -80,3 +80,93 @@ def dedupe(col: Collector):
         seen[k] = o
         out.append(o)
     col.obs = out
+
+
+# ------------------------------------------------------------------------------------------- shared recognisers
+import copy as _copy
+
+
+def expand_names(fn: ast.FunctionDef, e: ast.AST, depth: int = 4) -> ast.AST:
+    """Copy of `e` in which every local name that has exactly one definition in `fn` (a plain `name = expr`
+    assignment, not a parameter, not loop-carried) is replaced by that definition, recursively.  Used before comparing
+    expressions so that naming an intermediate does not change a verdict."""
+    from ..model import _binding_counts
+    cnt = _binding_counts(fn)
+    defs = {}
+    for n in ast.walk(fn):
+        if isinstance(n, ast.Assign) and len(n.targets) == 1 and isinstance(n.targets[0], ast.Name) and \
+                cnt.get(n.targets[0].id, 0) == 1:
+            defs[n.targets[0].id] = n.value
+    params = {a.arg for a in fn.args.posonlyargs + fn.args.args + fn.args.kwonlyargs}
+
+    class X(ast.NodeTransformer):
+        def __init__(self, d):
+            self.d = d
+
+        def visit_Name(self, node):
+            if isinstance(node.ctx, ast.Load) and node.id in defs and node.id not in params and self.d > 0:
+                return X(self.d - 1).visit(_copy.deepcopy(defs[node.id]))
+            return node
+    return X(depth).visit(_copy.deepcopy(e))
+
+
+def canon_arith(e: ast.AST) -> str:
+    """Text of an arithmetic expression with products/quotients flattened into sorted numerator / denominator factor
+    lists and sums sorted, so that `n*(s/2)/r` and `(s/2)*n/r` compare equal."""
+    def prod(x):
+        if isinstance(x, ast.BinOp) and isinstance(x.op, ast.Mult):
+            n1, d1 = prod(x.left)
+            n2, d2 = prod(x.right)
+            return n1 + n2, d1 + d2
+        if isinstance(x, ast.BinOp) and isinstance(x.op, ast.Div):
+            n1, d1 = prod(x.left)
+            n2, d2 = prod(x.right)
+            return n1 + d2, d1 + n2
+        return [canon_arith(x)], []
+    if isinstance(e, ast.BinOp) and isinstance(e.op, (ast.Mult, ast.Div)):
+        n, d = prod(e)
+        return "(" + "*".join(sorted(n)) + (")/(" + "*".join(sorted(d)) if d else "") + ")"
+    if isinstance(e, ast.BinOp) and isinstance(e.op, ast.Add):
+        return "(" + "+".join(sorted([canon_arith(e.left), canon_arith(e.right)])) + ")"
+    if isinstance(e, ast.BinOp):
+        return "(" + canon_arith(e.left) + type(e.op).__name__ + canon_arith(e.right) + ")"
+    if isinstance(e, ast.Call):
+        return "".join(ast.unparse(e.func).split()) + "(" + ",".join(
+            [canon_arith(a) for a in e.args] + sorted(f"{k.arg}={canon_arith(k.value)}" for k in e.keywords)) + ")"
+    if isinstance(e, ast.Subscript):
+        return canon_arith(e.value) + "[" + "".join(ast.unparse(e.slice).split()) + "]"
+    return "".join(ast.unparse(e).split())
+
+
+def none_facts(cfg, nd):
+    """{expression text: True/False}: on every path to `nd` the expression is None (True) / is not None (False), as
+    established by dominating tests (conjuncts split, `is not` normalised)."""
+    out = {}
+    for t in cfg.dominators().get(nd, ()):
+        if t.kind != "test" or t.ast is None or t is nd:
+            continue
+        for lab, truth in (("T", True), ("F", False)):
+            succ = [s for s, l in t.succ if l == lab]
+            other = [s for s, l in t.succ if l not in (lab, "exc")]
+            if succ and nd in cfg.reachable(succ, labels_excluded=("exc",)) and \
+                    nd not in cfg.reachable(other, blocked=[t], labels_excluded=("exc",)):
+                for expr, isnone in _none_conjuncts(t.ast, truth):
+                    out[expr] = isnone
+    return out
+
+
+def _none_conjuncts(test, truth):
+    if isinstance(test, ast.UnaryOp) and isinstance(test.op, ast.Not):
+        return _none_conjuncts(test.operand, not truth)
+    if isinstance(test, ast.BoolOp):
+        if (isinstance(test.op, ast.And) and truth) or (isinstance(test.op, ast.Or) and not truth):
+            out = []
+            for v in test.values:
+                out += _none_conjuncts(v, truth)
+            return out
+        return []
+    if isinstance(test, ast.Compare) and len(test.ops) == 1 and isinstance(test.comparators[0], ast.Constant) and \
+            test.comparators[0].value is None and isinstance(test.ops[0], (ast.Is, ast.IsNot)):
+        isnone = isinstance(test.ops[0], ast.Is)
+        return [("".join(ast.unparse(test.left).split()), isnone if truth else not isnone)]
+    return []
